@@ -12,6 +12,9 @@ import (
 	"runtime/debug"
 	"sort"
 	"strings"
+	"sync"
+	"sync/atomic"
+	"time"
 
 	"github.com/cockroachdb/pebble"
 	"github.com/cockroachdb/pebble/vfs"
@@ -104,6 +107,136 @@ func runStore(o *Out, r *rand.Rand, thorough bool, args []string) {
 	twoStores(o, r)
 	aliasHistory(o, r, thorough)
 	concSchedules(o, r)
+	concPruneSync(o, r)
+}
+
+// gateFS lets a run hold back the syncs of chosen files (the write-ahead log)
+type gateFS struct {
+	vfs.FS
+	gate func(name string)
+}
+
+func (g gateFS) Create(name string) (vfs.File, error) {
+	f, err := g.FS.Create(name)
+	if err != nil {
+		return nil, err
+	}
+	return gateFile{f, name, g.gate}, nil
+}
+func (g gateFS) ReuseForWrite(oldname, newname string) (vfs.File, error) {
+	f, err := g.FS.ReuseForWrite(oldname, newname)
+	if err != nil {
+		return nil, err
+	}
+	return gateFile{f, newname, g.gate}, nil
+}
+
+type gateFile struct {
+	vfs.File
+	name string
+	gate func(string)
+}
+
+func (f gateFile) Sync() error     { f.gate(f.name); return f.File.Sync() }
+func (f gateFile) SyncData() error { f.gate(f.name); return f.File.SyncData() }
+func (f gateFile) SyncTo(n int64) (bool, error) {
+	f.gate(f.name)
+	return f.File.SyncTo(n)
+}
+
+// concPruneSync: put A takes the store over capacity and prunes; its pruning batch is committed with Sync, and the write-ahead
+// log's fsync is held back by the file system. While A waits there, put B of a near item runs to completion; then the fsync
+// returns. The counter (in memory and persisted) must still cover what is held.
+func concPruneSync(o *Out, r *rand.Rand) {
+	for rep := 0; rep < 2; rep++ {
+		var armed atomic.Bool
+		reached, release := make(chan struct{}), make(chan struct{})
+		var once sync.Once
+		fs := gateFS{FS: vfs.NewMem(), gate: func(name string) {
+			if strings.HasSuffix(name, ".log") && armed.Load() {
+				hit := false
+				once.Do(func() { hit = true })
+				if hit {
+					close(reached)
+					<-release
+				}
+			}
+		}}
+		db, err := pebble.Open("db", &pebble.Options{FS: fs})
+		if err != nil {
+			panic(err)
+		}
+		var node enode.ID
+		r.Read(node[:])
+		st, err := spebble.NewStorage(storage.PortalStorageConfig{StorageCapacityMB: 1, NodeId: node, NetworkName: "verif"}, db)
+		if err != nil {
+			panic(err)
+		}
+		for i := 0; i < 99; i++ {
+			id := make([]byte, 32)
+			r.Read(id)
+			_ = st.Put(nil, id, genBytes(10000, i))
+		}
+		idA, idB := make([]byte, 32), append([]byte{}, node[:]...)
+		r.Read(idA)
+		copy(idA[:2], node[:2]) // near enough to stay within any radius the prune leaves
+		idB[31] ^= byte(1 + rep)
+		armed.Store(true)
+		// if B comes to prune as well it is held before it reads the counter until A has returned (named yield point)
+		var aBlocked atomic.Bool
+		bAtYield, releaseB := make(chan struct{}), make(chan struct{})
+		var onceB sync.Once
+		spebble.VerifYield = func(point string) {
+			if point == "prune.beforeSubtract" && aBlocked.Load() {
+				hit := false
+				onceB.Do(func() { hit = true })
+				if hit {
+					close(bAtYield)
+					<-releaseB
+				}
+			}
+		}
+		doneA := make(chan struct{})
+		go func() { _ = st.Put(nil, idA, genBytes(10000, 1000)); close(doneA) }()
+		outcome := "ok"
+		select {
+		case <-reached:
+			aBlocked.Store(true)
+			doneB := make(chan struct{})
+			go func() { _ = st.Put(nil, idB, genBytes(10000, 1001)); close(doneB) }()
+			select {
+			case <-doneB:
+				outcome = "b-completed-during-sync"
+				armed.Store(false)
+				close(release)
+				<-doneA
+			case <-bAtYield:
+				outcome = "b-pruned-too"
+				armed.Store(false)
+				close(release)
+				<-doneA
+				close(releaseB)
+				<-doneB
+			case <-time.After(5 * time.Second):
+				outcome = "b-waited-for-a"
+				armed.Store(false)
+				close(release)
+				<-doneA
+				<-doneB
+			}
+		case <-doneA:
+			outcome = "no-sync-seen"
+			armed.Store(false)
+		case <-time.After(10 * time.Second):
+			outcome = "a-stuck"
+			armed.Store(false)
+			close(release)
+		}
+		spebble.VerifYield = nil
+		time.Sleep(20 * time.Millisecond)
+		ob := observe(db)
+		o.Case(fmt.Sprintf("concprune rep=%d", rep), fmt.Sprintf("%s persisted=%d held=%d cap=1000000", outcome, ob.persisted, ob.held))
+	}
 }
 
 // twoStores: two stores in one process (the portal node opens one per network). Store B receives a few small items;
